@@ -1,14 +1,13 @@
 ---------------------------- MODULE MC_BinCalls ----------------------------
 (* Model-checking / export instance of BinCalls.                                                          *)
-(*   design   MSpec: the clauses over the whole reachable graph of the sound variant and of each mutant;   *)
-(*            one config per mutant, which TLC must refute (MC_BinCalls_ref_*.cfg).                        *)
+(*   refute   MSpec: one config per design mutant (MC_BinCalls_ref_*.cfg); TLC must refute its invariant.        *)
 (*   pairs    HSpec bounded to Depth calls: EVERY ordered sequence of Depth calls for every kind of binner *)
 (*            and every stored order; prints the table of operations with what the statement requires      *)
 (*            (exact) and every sequence with the design mutants it exposes.                               *)
 (*   walks    SSpec in simulation mode: longer random sequences.                                           *)
 (* Target bins (lattice) [23,33] [10,20] [50,68] [30,40] [86,94] handed over unsorted: overlapping bins,    *)
 (* gaps, unequal widths, one bin outside every grid.  Native grids: 1 a uniform tiling, 2 irregular widths *)
-(* with gaps, (3, thorough) a second uniform tiling of the same length as 1.                                *)
+(* with gaps, 3 (random sequences of the thorough tier) a second uniform tiling of the same length as 1.    *)
 EXTENDS BinCalls, Json
 CONSTANTS NGrids, Depth, Export
 VARIABLE hist
